@@ -381,10 +381,7 @@ def run_property(prop, tier, seed):
         "wall_s": round(time.time() - t0, 2),
         "violations": len(violations),
     }
-    os.makedirs(os.path.join(VERIF, "evidence"), exist_ok=True)
-    tmp = os.path.join(VERIF, "evidence", prop + ".json.tmp")
-    json.dump(ev, open(tmp, "w"), indent=1)
-    os.rename(tmp, os.path.join(VERIF, "evidence", prop + ".json"))
+    write_evidence(prop, ev)
 
     allk = {f["key"]: f for f in load_known() if f["property"] == prop and f.get("status") == "known"}
     for k, n in sorted(known_hits.items()):
@@ -397,6 +394,13 @@ def run_property(prop, tier, seed):
         print("VIOLATION property=%s replay=%s" % (prop, p))
     sys.stdout.flush()
     return 1 if violations else 0
+
+def write_evidence(prop, ev):
+    edir = os.environ.get("VERIF_EVIDENCE_DIR", os.path.join(VERIF, "evidence"))
+    os.makedirs(edir, exist_ok=True)
+    tmp = os.path.join(edir, prop + ".json.tmp")
+    json.dump(ev, open(tmp, "w"), indent=1)
+    os.rename(tmp, os.path.join(edir, prop + ".json"))
 
 def cmd_replay(prop, path):
     meta = load_meta(prop)
